@@ -1,0 +1,234 @@
+//go:build verif
+
+/*
+ * Atree - Scalable Arrays and Ordered Maps
+ *
+ * Copyright Flow Foundation
+ *
+ * Licensed under the Apache License, Version 2.0 (the "License");
+ * you may not use this file except in compliance with the License.
+ * You may obtain a copy of the License at
+ *
+ *   http://www.apache.org/licenses/LICENSE-2.0
+ *
+ * Unless required by applicable law or agreed to in writing, software
+ * distributed under the License is distributed on an "AS IS" BASIS,
+ * WITHOUT WARRANTIES OR CONDITIONS OF ANY KIND, either express or implied.
+ * See the License for the specific language governing permissions and
+ * limitations under the License.
+ */
+
+package atree
+
+import "sort"
+
+// This file is compiled only with the build tag "verif".  It gives an external
+// verification harness the same read-only view of unexported state (and the
+// same two global setters) that export_test.go gives the in-package tests.
+// It adds code only; nothing here is reachable without the tag.
+
+// VerifSetThreshold sets the global slab size (see setThreshold).
+func VerifSetThreshold(threshold uint32) (minT, maxT, maxInlineArrayElem, maxInlineMapKey uint32) {
+	return setThreshold(threshold)
+}
+
+// VerifThresholds returns the current global thresholds.
+func VerifThresholds() (target, minT, maxT, maxInlineArrayElem, maxInlineMapElem, maxInlineMapKey uint32) {
+	return targetThreshold, minThreshold, maxThreshold, maxInlineArrayElementSize, maxInlineMapElementSize, maxInlineMapKeySize
+}
+
+// VerifSetMaxCollisionLimitPerDigest sets the per-digest collision limit and returns the previous one.
+func VerifSetMaxCollisionLimitPerDigest(limit uint32) uint32 {
+	old := maxCollisionLimitPerDigest
+	maxCollisionLimitPerDigest = limit
+	return old
+}
+
+// VerifStorageLayers returns the live read cache and write set of a PersistentSlabStorage.
+func VerifStorageLayers(s *PersistentSlabStorage) (cache map[SlabID]Slab, deltas map[SlabID]Slab) {
+	return s.cache, s.deltas
+}
+
+// VerifChildHeader is one child entry of an index (metadata) slab.
+type VerifChildHeader struct {
+	SlabID   SlabID
+	Size     uint32
+	Count    uint32 // arrays only
+	FirstKey uint64 // maps only
+}
+
+// VerifElem describes one map element of a map data slab (recursively for collision groups).
+type VerifElem struct {
+	Kind     string // "single", "inlineGroup", "externalGroup"
+	Digest   uint64 // digest under which this element is filed in its hkeyElements (0 for list elements)
+	HasHKey  bool
+	Size     uint32
+	Key      Storable
+	Value    Storable
+	GroupID  SlabID      // externalGroup
+	Elems    []VerifElem // inlineGroup
+	Level    uint        // level of the group's own elements
+	ListKind bool        // group's own elements are a digest-less list
+}
+
+// VerifSlabInfo is a read-only projection of a slab.
+type VerifSlabInfo struct {
+	Kind           string // "arrayData", "arrayMeta", "mapData", "mapMeta", "storable"
+	SlabID         SlabID
+	Next           SlabID
+	HeaderSize     uint32
+	HeaderCount    uint32
+	FirstKey       uint64
+	HasExtraData   bool
+	Inlined        bool
+	AnySize        bool
+	CollisionGroup bool
+	Children       []VerifChildHeader
+	CountSums      []uint32
+	Elements       []Storable  // array data slab elements / storable slab's storable
+	MapElems       []VerifElem // map data slab elements
+	MapLevel       uint
+	MapListKind    bool
+	MapElemsSize   uint32
+	MapCount       uint64 // from extra data (root only)
+	MapSeed        uint64 // from extra data (root only)
+	TypeInfo       TypeInfo
+}
+
+func verifDescribeElements(e elements) (elems []VerifElem, level uint, list bool, size uint32) {
+	switch e := e.(type) {
+	case *hkeyElements:
+		for i, el := range e.elems {
+			ve := verifDescribeElement(el)
+			ve.Digest = uint64(e.hkeys[i])
+			ve.HasHKey = true
+			elems = append(elems, ve)
+		}
+		return elems, e.level, false, e.size
+	case *singleElements:
+		for _, el := range e.elems {
+			elems = append(elems, verifDescribeElement(el))
+		}
+		return elems, e.level, true, e.size
+	}
+	return nil, 0, false, 0
+}
+
+func verifDescribeElement(el element) VerifElem {
+	switch el := el.(type) {
+	case *singleElement:
+		return VerifElem{Kind: "single", Size: el.size, Key: el.key, Value: el.value}
+	case *inlineCollisionGroup:
+		sub, level, list, _ := verifDescribeElements(el.elements)
+		return VerifElem{Kind: "inlineGroup", Size: el.Size(), Elems: sub, Level: level, ListKind: list}
+	case *externalCollisionGroup:
+		return VerifElem{Kind: "externalGroup", Size: el.size, GroupID: el.slabID}
+	}
+	return VerifElem{Kind: "unknown"}
+}
+
+// VerifDescribeSlab returns a read-only projection of slab.
+func VerifDescribeSlab(slab Slab) VerifSlabInfo {
+	switch s := slab.(type) {
+	case *ArrayDataSlab:
+		info := VerifSlabInfo{
+			Kind:         "arrayData",
+			SlabID:       s.header.slabID,
+			Next:         s.next,
+			HeaderSize:   s.header.size,
+			HeaderCount:  s.header.count,
+			HasExtraData: s.extraData != nil,
+			Inlined:      s.inlined,
+			Elements:     s.elements,
+		}
+		if s.extraData != nil {
+			info.TypeInfo = s.extraData.TypeInfo
+		}
+		return info
+	case *ArrayMetaDataSlab:
+		info := VerifSlabInfo{
+			Kind:         "arrayMeta",
+			SlabID:       s.header.slabID,
+			HeaderSize:   s.header.size,
+			HeaderCount:  s.header.count,
+			HasExtraData: s.extraData != nil,
+			CountSums:    s.childrenCountSum,
+		}
+		for _, h := range s.childrenHeaders {
+			info.Children = append(info.Children, VerifChildHeader{SlabID: h.slabID, Size: h.size, Count: h.count})
+		}
+		if s.extraData != nil {
+			info.TypeInfo = s.extraData.TypeInfo
+		}
+		return info
+	case *MapDataSlab:
+		info := VerifSlabInfo{
+			Kind:           "mapData",
+			SlabID:         s.header.slabID,
+			Next:           s.next,
+			HeaderSize:     s.header.size,
+			FirstKey:       uint64(s.header.firstKey),
+			HasExtraData:   s.extraData != nil,
+			Inlined:        s.inlined,
+			AnySize:        s.anySize,
+			CollisionGroup: s.collisionGroup,
+		}
+		info.MapElems, info.MapLevel, info.MapListKind, info.MapElemsSize = verifDescribeElements(s.elements)
+		if s.extraData != nil {
+			info.TypeInfo = s.extraData.TypeInfo
+			info.MapCount = s.extraData.Count
+			info.MapSeed = s.extraData.Seed
+		}
+		return info
+	case *MapMetaDataSlab:
+		info := VerifSlabInfo{
+			Kind:         "mapMeta",
+			SlabID:       s.header.slabID,
+			HeaderSize:   s.header.size,
+			FirstKey:     uint64(s.header.firstKey),
+			HasExtraData: s.extraData != nil,
+		}
+		for _, h := range s.childrenHeaders {
+			info.Children = append(info.Children, VerifChildHeader{SlabID: h.slabID, Size: h.size, FirstKey: uint64(h.firstKey)})
+		}
+		if s.extraData != nil {
+			info.TypeInfo = s.extraData.TypeInfo
+			info.MapCount = s.extraData.Count
+			info.MapSeed = s.extraData.Seed
+		}
+		return info
+	case *StorableSlab:
+		return VerifSlabInfo{
+			Kind:     "storable",
+			SlabID:   s.slabID,
+			Elements: []Storable{s.storable},
+		}
+	}
+	return VerifSlabInfo{Kind: "unknown"}
+}
+
+// VerifTrackedChild is one entry of an array's table of tracked nested containers.
+type VerifTrackedChild struct {
+	ValueID ValueID
+	Index   uint64
+}
+
+// VerifArrayState returns the root slab, whether a parent callback is installed and the
+// table of tracked nested containers (sorted by index, then value ID).
+func VerifArrayState(a *Array) (root Slab, hasParentUpdater bool, tracked []VerifTrackedChild) {
+	for id, i := range a.mutableElementIndex {
+		tracked = append(tracked, VerifTrackedChild{ValueID: id, Index: i})
+	}
+	sort.Slice(tracked, func(i, j int) bool {
+		if tracked[i].Index != tracked[j].Index {
+			return tracked[i].Index < tracked[j].Index
+		}
+		return string(tracked[i].ValueID[:]) < string(tracked[j].ValueID[:])
+	})
+	return a.root, a.parentUpdater != nil, tracked
+}
+
+// VerifMapState returns the root slab and whether a parent callback is installed.
+func VerifMapState(m *OrderedMap) (root Slab, hasParentUpdater bool) {
+	return m.root, m.parentUpdater != nil
+}
